@@ -32,12 +32,14 @@ CHECKS["C02"] = dict(
          "every dt, nodal-varying coefficients): the weighted node equations telescope in r, theta and z, so the change of "
          "stored heat equals dt times the exchange with the two radial ghost layers, which the ghost rows turn into "
          "0 / flux / film*(Tf - Twall) with the explicit half-node factor 1 -/+ dr/(2r); non-negative flux never lowers the "
-         "stored heat.  Tied to srlife/thermal.py by an exact certificate: the model's equations evaluated at the "
-         "implementation's output for every recorded (sub)step.",
+         "stored heat.  Tied to srlife/thermal.py twice: a translator regenerates the finite-difference system (the three "
+         "sp.diags operators, the steady / transient system of solve_step, every ghost row) from the source on every run and "
+         "it is proved equivalent to the model's equations Eqs (C02_stencil; shared with C06, C12, C13); and by an exact "
+         "certificate: the model's equations evaluated at the implementation's output for every recorded (sub)step.",
     note="Trusted: Coq kernel; spsolve (output only checked); harness reference for BC data and material tables; "
          "hypotheses: tables periodic in their theta ghosts (H2), r > 0; flux sign needs dr < 2 r_inner (H1). "
          "Volumetric sources and the fix_edge test mode are not modelled.",
-    technique="Coq proof (telescoping sums over Q) + exact per-step certificate correspondence by vm_compute",
+    technique="Coq proof (telescoping sums over Q) + finite-difference system regenerated from the source + exact per-step certificate correspondence by vm_compute",
     design="4/C02")
 CHECKS["C06"] = dict(
     text="Discrete maximum principle proved for the same model: for every dt > 0, grid, dimension and positive nodal "
